@@ -21,7 +21,7 @@ RULE = (
 )
 ASSUMPTIONS = ["merge matcher with ASSD is excluded (a flip changes float summation order and can flip an exactly-equal merge decision)", "base case judged against the reference model by C01"]
 MINIMUM = {"C10.judged": 3000, "f:C10.layout": 300, "f:C10.pad": 300, "f:C10.flip": 300, "f:C10.perm": 200}
-BUDGET_S = {"quick": 600, "thorough": 900}
+BUDGET_S = {"quick": 1200, "thorough": 900}
 MALLOC_DEBUG = True
 
 
